@@ -1032,7 +1032,8 @@ def generic_check(mod, tier, seed):
         outcomes[k] = outcomes.get(k, 0) + 1
     return finish(res, mod, samples, len(cases), nontriv, mod.RULE,
                   {"generator_distribution": dist, "impl_outcome_kinds": outcomes,
-                   "unmodelled_cases": sum(1 for c in cases if c.model == getattr(mod, "UNMODELLED", None)),
+                   "unmodelled_cases": sum(1 for c in cases if c.model == getattr(mod, "UNMODELLED", None)
+                                           or (c.op.startswith("cli") and c.model in ("unmodelled", "bad-args"))),
                    "search_tier": search_tier,
                    "theorems": [{"name": t["name"], "axioms": t["axioms"]} for t in ths]})
 
@@ -1137,6 +1138,10 @@ def model_matches(mod, c):
     the step where the property is already violated)."""
     if c.op.startswith("det"):
         return (c.impl or "").startswith("same")      # the model of a det* op is always `same`
+    if c.op.startswith("cli") and c.model in ("unmodelled", "bad-args"):
+        # a command line the expectations do not cover (e.g. a flag whose registration is no longer found in cmd/*.go):
+        # nothing is claimed about it, so nothing is reported; the evidence counts these cases
+        return True
     if hasattr(mod, "matches"):
         return mod.matches(c)
     if c.model == "panic" and (c.impl or "").startswith("panic"):
